@@ -152,6 +152,11 @@ fn gen_text_case(cur: &mut Cursor) -> Value {
             let g = grammar_fen(cur);
             mutate(cur, &g, FEN_ALPHABET)
         }
+        8 if cur.bool() => {
+            // the repository's own FEN texts, verbatim, with one or two edits
+            let t = crate::gen::positions::CORPUS[cur.below(crate::gen::positions::CORPUS.len())];
+            mutate(cur, t, FEN_ALPHABET)
+        }
         8 => alphabet_string(cur, FEN_ALPHABET, 80),
         _ => {
             let (p, _) = gen_position(cur);
